@@ -16,6 +16,8 @@ TRUSTED_BASE = [
     'T4 floats as reals (no NaN/inf), str(int) injective (STRINT)',
     'T6 HEAP-CLOSED: references stored in allocated objects / containers are allocated; allocation is fresh',
     'TYPES: fields hold values of their declared (sidecar schema) types; element types of typed lists',
+    'SETCARD: |{f(x) for x in L}| <= len(L), with equality iff L has no repeated element and f is injective on its members '
+    '(assumed by the encoding of set comprehensions; proved in lemmas/SetCard.lean with Lean 4 + Mathlib, re-checked in the thorough tier of C05/C06)',
 ]
 
 
@@ -164,6 +166,17 @@ def run_property(prop: str, tier: str):
                 errors.append('solver disagreement: z3 proved %s, cvc5 reports a counter-model' % o.name)
             elif sec:
                 cross['cvc5_unknown'] += 1
+    # container-theory law SETCARD (set comprehensions): re-checked by Lean in the thorough tier of the properties that use it
+    if tier == 'thorough' and prop in ('C05', 'C06'):
+        import subprocess
+        try:
+            r = subprocess.run(['lean', os.path.join(ROOT, 'lemmas', 'SetCard.lean')], capture_output=True, text=True, timeout=600)
+            if r.returncode != 0 or 'error' in (r.stdout + r.stderr):
+                errors.append('lean rejects lemmas/SetCard.lean: ' + (r.stdout + r.stderr)[-400:])
+            else:
+                unverified.append('SETCARD law of set comprehensions: checked by lean (lemmas/SetCard.lean) on this run')
+        except Exception as e:
+            errors.append('lean could not be run on lemmas/SetCard.lean: %r' % e)
     for fn_, vs in canaries.items():
         # a dead path is fine (e.g. an arm excluded by the precondition); a function ALL of whose normal exits are
         # unreachable has a contradictory precondition or invariant: the proof would be vacuous
